@@ -75,7 +75,7 @@ def plan(tier, prop):
 class Cmd(object):
     __slots__ = ("id", "burst", "x", "y", "p", "cmd", "arg2", "arg3", "data",
                  "extra", "timeout", "tx_clock", "seq", "ok_returned",
-                 "callbacks", "replies", "raw")
+                 "callbacks", "replies", "raw", "nest")
 
 
 class Engine(object):
@@ -287,6 +287,8 @@ class Engine(object):
             w.trace.ev("callback", c.id)
             c.callbacks += 1
             self.caller_code("slow_callback")
+            if getattr(c, "nest", False) and not self.nest_from_iterable:
+                self.nested_call()
             if c.callbacks > 1:
                 w.violate("X1", "callback of command %d invoked %d times"
                           % (c.id, c.callbacks), kind="callback-twice")
@@ -341,6 +343,38 @@ class Engine(object):
             self.caller_time += d
             self.caller_total += d
 
+    def nested_call(self):
+        """One send_scp on the same connection while a burst is in progress
+        (judged by its own oracle); the outer burst's book-keeping is put
+        aside and restored."""
+        if getattr(self, "depth", 0) >= 1:
+            return
+        names = ("cur", "cur_index", "cur_window", "outstanding",
+                 "fatal_seen", "warp", "caller_total", "cur_n_args")
+        saved = {k: getattr(self, k, None) for k in names}
+        outer_index = self.cur_index
+        t0 = self.w.sim.now
+        self.depth = 1
+        try:
+            # (a fresh burst index; the outer's commands are "of another
+            # burst" while it runs, exactly as rig's inner loop sees them)
+            self.cur_index = self.max_index
+            self.run_burst(1, 1, single=True)
+        finally:
+            self.depth = 0
+            self.max_index = max(self.max_index, self.cur_index)
+            for k, v in saved.items():
+                setattr(self, k, v)
+            self.cur_index = outer_index
+            dt = self.w.sim.now - t0
+            self.caller_total = (saved["caller_total"] or 0.0) + dt
+
+    def nesting_iter(self, it, cmds):
+        for c, call in zip(cmds, it):
+            if getattr(c, "nest", False):
+                self.nested_call()
+            yield call
+
     def slow_iter(self, calls):
         for call in calls:
             self.caller_code("slow_iterable")
@@ -378,13 +412,16 @@ class Engine(object):
         c.ok_returned = False
         c.callbacks = 0
         c.replies = []
+        c.nest = False
         self.cmds[c.id] = c
         return c
 
     def run_burst(self, n, window, single=False, heal=False, simple=False):
         w = self.w
         scp = self.scp
-        self.cur_index += 1
+        self.max_index = max(getattr(self, "max_index", 0),
+                             self.cur_index) + 1
+        self.cur_index = self.max_index
         idx = self.cur_index
         cmds = [self.new_cmd(idx, simple) for _ in range(n)]
         if not heal and not simple and self.policy.any_net():
@@ -412,6 +449,21 @@ class Engine(object):
             self.warp = cmds[:2]
             w.probe("seq_time_warp")
         warped = self.warp is not None
+        # re-entrant use: a callback (or the command iterable) of this burst
+        # issues a command of its own on the same connection.  The unchanged
+        # code gets through that by retransmission (the inner call consumes
+        # and discards replies meant for the outer burst), so only the
+        # clauses that do not depend on who received a reply are judged for
+        # the outer burst: see `nested` below.
+        nested = (not heal and not simple and not single and not warped and
+                  getattr(self, "depth", 0) == 0 and n >= 1 and
+                  self.tape.draw(12) == 0)
+        if nested:
+            w.probe("nested_call")
+            for c in cmds:
+                c.nest = self.tape.draw(3) == 0
+            cmds[self.tape.draw(len(cmds))].nest = True
+            self.nest_from_iterable = bool(self.tape.draw(2))
         self.cur = cmds
         self.outstanding = {}     # seq -> command sent and not yet answered
         self.cur_window = 1 if single else window
@@ -456,6 +508,8 @@ class Engine(object):
                 it = iter(calls) if self.tape.draw(2) else calls
                 if self.policy.rate("slow_iterable") > 0:
                     it = self.slow_iter(calls)
+                if nested and self.nest_from_iterable:
+                    it = self.nesting_iter(it, cmds)
                 self.conn.send_scp_burst(self.buffer_size, window, it)
         except scp.TimeoutError as e:
             outcome, exc = "TimeoutError", e
@@ -603,7 +657,7 @@ class Engine(object):
                  "clock_jump_back", "slow_iterable", "slow_callback")) and \
                 (heal or self.clean) and \
                 getattr(self, "long_victim", None) is None and \
-                not warped:
+                not warped and not nested:
             if outcome != "returned":
                 w.violate("L", "no fault is active but the call raised %s"
                           % outcome, kind="healed-failure")
